@@ -75,6 +75,10 @@ structure Req (K T R : Type) where
   wants : K → Bool
   /-- some completed subscription path `qmatches` the key (what the walk returns) -/
   walks : K → Bool
+  /-- how many *further* completed subscription paths `qmatches` the key: `processSubscription` runs one
+  `Query` per subscription path and inserts every leaf each returns, so within one walk a leaf may be
+  visited once per path that matches it (each further visit only adds a duplicate to the pending entry) -/
+  extra : K → Nat := fun _ => 0
   /-- the registered paths are `compatible` with the path of the region delete -/
   wantsR : R → Bool
   /-- the per-RPC ACL (`RPCACL.Check`) -/
@@ -328,7 +332,7 @@ def Sub.onShared (sys : Sys K T R) (rq : Req K T R) (b : Sub K V R) :
 /-- labels of the local steps of one subscriber -/
 inductive SLabel (K : Type) where
   | hs               -- the handler executes its next statement
-  | visit (k : K)    -- the walk visits leaf `k` (under the tree's read locks) and inserts its handle
+  | visit (k : K)    -- the walk visits leaf `k` (under the tree's read locks) and inserts its handle (once per matching path)
   | finish           -- the walk is over: insert the sync marker (ONCE: close the queue)
   | poll             -- POLL: a trigger is received, walk again
   | eof              -- POLL: the client half-closes
@@ -399,7 +403,7 @@ def subFire (sys : Sys K T R) (rq : Req K T R) (sh : Shared K V T R) (b : Sub K 
   | .visit k =>
     match b.walker with
     | .walking todo vis =>
-      if b.status = none ∧ rq.updatesOnly = false ∧ sh.present k = true ∧ rq.walks k = true ∧ k ∉ vis then
+      if b.status = none ∧ rq.updatesOnly = false ∧ sh.present k = true ∧ rq.walks k = true ∧ vis.count k ≤ rq.extra k then
         some { b.ins (.handle k (sh.gen k)) with walker := .walking (todo.filter (· ≠ k)) (k :: vis) }
       else none
     | _ => none
